@@ -290,6 +290,12 @@ def sequences(ctx):
                     if len(d1) != n1:
                         ctx.violation("plateau-sample-count:sequence", f"{hist}: {n1} samples were requested",
                                       {"history": list(hist), "observed": len(d1), "expected": n1})
+                    # asked again, the scan comes from the cache: the same two arrays, in the same order
+                    e1b, d1b = idnt.compute_emodulus_mindelta()
+                    if not (np.array_equal(e1b, e1, equal_nan=True) and np.array_equal(d1b, d1, equal_nan=True)):
+                        ctx.violation("scan-cache-differs", f"{hist}: a second compute_emodulus_mindelta() returns other "
+                                      f"arrays than the first (first depths {np.asarray(d1)[:2]}, second "
+                                      f"{np.asarray(d1b)[:2]})", {"history": list(hist) + ["compute_emodulus_mindelta()"]})
                     idnt.fit_model(optimal_fit_num_samples=n2)
                     e2, d2 = idnt.compute_emodulus_mindelta()
                     hist += [f"fit_model(optimal_fit_num_samples={n2})",
@@ -305,6 +311,15 @@ def sequences(ctx):
                 ctx.violation(f"sequence-raises:{scen}", f"{hist} + next call raised {e!r}", {"history": hist})
                 continue
         fp = idnt.fit_properties
+        if "optimal_fit_delta_array" in fp:
+            with warnings.catch_warnings():
+                warnings.simplefilter("ignore")
+                ec, dc = idnt.compute_emodulus_mindelta()
+            if not (np.array_equal(dc, fp["optimal_fit_delta_array"], equal_nan=True) and
+                    np.array_equal(ec, fp["optimal_fit_E_array"], equal_nan=True)):
+                ctx.violation("scan-accessor-differs", f"{hist}: compute_emodulus_mindelta() does not return (moduli, depths) "
+                              f"as the fit stored them (depths returned {np.asarray(dc)[:2]}, stored "
+                              f"{np.asarray(fp['optimal_fit_delta_array'])[:2]})", {"history": list(hist)})
         ctx.case({"sequence": scen, "history": hist}, nontrivial=f"seq:{scen}:{i}:{n1}:{n2}:{hi}", bucket="stream=sequences")
         got_n = len(fp.get("optimal_fit_delta_array", []))
         if got_n != want_n:
